@@ -160,3 +160,223 @@ _OTHER = ty.TObj("Expr", only=("BinaryOp", "IdentifierExpr", "NumberLiteral"))
 CONTRACTS = [decl, _assign_contract("identifier", _IDENT, _CALL, "name = call(...)"), _assign_contract("identifier", _IDENT, _OTHER, "name = expression"),
              _assign_contract("property", _PROP, _OTHER, "entity.property = expression"),
              error_c, define_c, get_type, naked, matches, implicit, meta, lookup_c]
+
+
+# =================================================================================================
+# SemanticAnalyzer.visit_CallExpr (undefined function, not a function, recursion, arity, argument kinds):
+#   an error is recorded exactly when  the name is undefined and not a builtin  /  it names something that is not a function  /
+#   the function is being analysed (direct or indirect recursion)  /  the number of arguments differs from the number of
+#   parameters  /  an argument's kind is not accepted for its parameter (one error per such argument);
+#   otherwise none — and every argument of an arity-correct call is analysed.  Calls with two arguments against functions
+#   with one, two or three parameters (bounded lists), names / kinds symbolic.
+# =================================================================================================
+def _call_lookup(ex, a):
+    return ghost(ex.args_ns.node, "symbol", ty.TOpt(ty.TObj("Symbol", only=("Symbol",), ftypes=(("symbol_type", ty.Str),))))
+
+
+def _compat(ex, a):
+    TYPED.append(("compat", a.param_type, a.arg_type))
+    return ghost(a.arg_type, "compatible", ty.Bool)
+
+
+call_lookup = Contract(qualname="dsl_compiler/src/semantic/symbol_table.py::SymbolTable.lookup", params={"self": _OPQ, "name": _OPQ}, effect=_call_lookup, verify=False,
+                       note="proved in contracts.c14: innermost definition of the name, None when undefined")
+compat_c = Contract(qualname=AN + "_is_compatible_argument", params={"self": _OPQ, "param_type": _OPQ, "arg_type": _OPQ}, effect=_compat, verify=False, note="proved below")
+builtin_c = Contract(qualname=AN + "_validate_builtin_call", params={"self": _OPQ, "node": _OPQ}, effect=lambda ex, a: META.append(("builtin", a.node)), verify=False,
+                     note="checks of place / input / memory (S3 reject scope, bounded)")
+
+
+def _call_post(n_params):
+    def post(a, res):
+        node = a.node
+        sym = node._fields.get("@symbol")
+        args = list(node.args)
+        analysed = [t for t in TYPED if not (isinstance(t, tuple) and t and t[0] == "compat")]
+        compat = [t for t in TYPED if isinstance(t, tuple) and t and t[0] == "compat"]
+        if sym is None:
+            builtin = Or(node.name == "place", node.name == "input", node.name == "memory")
+            if META:
+                return And(builtin, len(ERR) == 0)
+            return And(Not(builtin), len(ERR) == 1)
+        is_fn = sym.symbol_type == "function"
+        recursive = z3.Select(a.self._analyzing_functions.member, node.name)
+        if not analysed:
+            # refused before looking at the arguments: not a function, recursion, or wrong arity
+            return And(len(ERR) == 1, Or(Not(is_fn), recursive, True if n_params != len(args) else False))
+        if n_params != len(args):
+            return False
+        if len(analysed) != len(args) or any(x is not y for x, y in zip(analysed, args)):
+            return False
+        bad = sum(ops.ite(arg._fields["@type"]._fields["@compatible"], 0, 1) for arg in args)
+        params_ok = all(c[1] is p.type_name for c, p in zip(compat, sym.function_def.params)) and len(compat) == len(args)
+        return And(is_fn, Not(recursive), len(ERR) == bad, params_ok)
+    return post
+
+
+_ARG = ty.TObj("Expr", only=("IdentifierExpr", "NumberLiteral", "BinaryOp"))
+for _np in (1, 2, 3):
+    _params = ty.TTuple(tuple(ty.TObj("TypedParam", only=("TypedParam",), ftypes=(("type_name", ty.Str),)) for _ in range(_np)))
+    CONTRACTS.append(Contract(
+        qualname=AN + "visit_CallExpr",
+        params={"self": _SELF, "node": ty.TObj("CallExpr", only=("CallExpr",), ftypes=(("name", ty.Str), ("args", ty.TTuple((_ARG, _ARG)))))},
+        requires=[("(reset capture)", _reset)],
+        ensures=[("an error exactly for: undefined non-builtin, not a function, recursion, wrong arity, each argument of a wrong kind", _call_post(_np))],
+        uses={**_USES, "SymbolTable.lookup": call_lookup, "SemanticAnalyzer._is_compatible_argument": compat_c, "SemanticAnalyzer._validate_builtin_call": builtin_c},
+        dynamic_types={**_DYN, "self": {**_DYN["self"], "_analyzing_functions": ty.TSet(ty.Str)},
+                       "node@symbol": {"function_def": ty.TObj("FuncDecl", only=("FuncDecl",), ftypes=(("params", _params),))}},
+        properties=("C14", "C15"), min_obligations=3, no_replay=True, note=f"two arguments, function with {_np} parameter(s)"))
+CONTRACTS += [call_lookup, compat_c, builtin_c]
+
+
+# ---------------------------------------------------------------------------------------------------------------------
+def _compat_post(a, res):
+    t = a.arg_type
+    num = Or(isa(t, "IntValue"), isa(t, "SignalValue")) if not isinstance(isa(t, "IntValue"), bool) else (isa(t, "IntValue") or isa(t, "SignalValue"))
+    ent = isa(t, "EntityValue")
+    want = ops.ite(Or(a.param_type == "int", a.param_type == "Signal"), num, ops.ite(a.param_type == "Entity", ent, False))
+    return ops.eq(res, want) if ops.is_sym(want) or ops.is_sym(res) else res == want
+
+
+CONTRACTS.append(Contract(
+    qualname=AN + "_is_compatible_argument", params={"self": _SELF, "param_type": ty.Str, "arg_type": _VT},
+    ensures=[("int / Signal parameters take integers and signals, Entity parameters take entities, nothing else is accepted (bundles and memories never)", _compat_post)],
+    properties=("C14",), min_obligations=3, no_replay=True))
+
+
+# ---------------------------------------------------------------------------------------------------------------------
+# _infer_bundle_select_type: b["signal-X"] is an error when b is not a bundle or (for a bundle with known members) X is absent;
+# the result is then a signal of a fresh implicit type; a valid selection is a signal of type X and records no error.
+# ---------------------------------------------------------------------------------------------------------------------
+def _sel_type(ex, a):
+    return ghost(a.expr, "type", ty.TObj("ValueInfo", only=("IntValue", "SignalValue", "BundleValue", "DynamicBundleValue", "EntityValue"), ftypes=(("signal_types", ty.TConcrete({"signal-A", "signal-B"})),)))
+
+
+def _mk_info(ex, a):
+    r = SObj(["SignalTypeInfo"], fresh_name("info"), lazy=False)
+    r._fields["name"] = a.signal_type
+    return r
+
+
+def _select_post(a, res):
+    bt = a.expr.bundle._fields.get("@type")
+    is_bundle = Or(isa(bt, "BundleValue"), isa(bt, "DynamicBundleValue")) if not isinstance(isa(bt, "BundleValue"), bool) else (isa(bt, "BundleValue") or isa(bt, "DynamicBundleValue"))
+    dynamic = isa(bt, "DynamicBundleValue")
+    member = Or(a.expr.signal_type == "signal-A", a.expr.signal_type == "signal-B")
+    valid = And(is_bundle, Or(dynamic, member))
+    st = res.signal_type
+    named = isinstance(st, SObj)
+    cs = [isa(res, "SignalValue"), len(ERR) == ops.ite(valid, 0, 1)]
+    cs.append(valid if named else Not(valid))
+    if named:
+        cs.append(st.name is a.expr.signal_type)
+    return And(*[x if not isinstance(x, bool) else z3.BoolVal(x) for x in cs])
+
+
+CONTRACTS.append(Contract(
+    qualname=AN + "_infer_bundle_select_type",
+    params={"self": _SELF, "expr": ty.TObj("BundleSelectExpr", only=("BundleSelectExpr",), ftypes=(("signal_type", ty.Str), ("bundle", ty.TObj("Expr", only=("IdentifierExpr",)))))},
+    requires=[("(reset capture)", _reset)],
+    ensures=[("selecting from a non-bundle or an absent member is an error (result: fresh implicit signal); a valid selection is a signal of the selected type, no error", _select_post)],
+    uses={**_USES, "SemanticAnalyzer.get_expr_type": Contract(qualname=AN + "get_expr_type", params={"self": _OPQ, "expr": _OPQ}, effect=_sel_type, verify=False, note="type of the bundle expression"),
+          "SemanticAnalyzer.make_signal_type_info": Contract(qualname=AN + "make_signal_type_info", params={"self": _OPQ, "signal_type": _OPQ}, effect=_mk_info, verify=False, note="signal type record with this name")},
+    dynamic_types=_DYN, properties=("C14", "C02"), min_obligations=3, no_replay=True, note="bundle of two members (bounded), selected name symbolic"))
+
+
+# =================================================================================================
+# Signal names and the reserved write-enable signal.
+#   validate_signal_type_with_error   an unknown signal name (not registered by the program, not in the game's signal data) is an
+#                                     error; known names are accepted silently; the verdict is returned
+#   _emit_reserved_signal_diagnostic  `signal-W` is refused with an ERROR wherever it is used; other names pass
+#   visit_MemDecl                     the declared type of a cell is validated and checked against the reserved rules; the cell is
+#                                     defined in the current scope as a mutable memory symbol; a redefinition is an error
+# =================================================================================================
+def _valid_name(ex, a):
+    ok = ghost(ex.args_ns.node, "name_in_game_data", ty.Bool)
+    return (ok, "Unknown signal")
+
+
+is_valid_c = Contract(qualname="dsl_compiler/src/common/signal_registry.py::is_valid_factorio_signal", params={"signal_name": _OPQ}, effect=_valid_name, verify=False,
+                      note="lookup in the game's signal tables shipped with draftsman (S4 assumption): (True, None) or (False, message)")
+
+
+def _validate_post(a, res):
+    name = a.signal_name
+    known = z3.Select(a.self.signal_type_map.present, name)
+    in_game = a.node._fields.get("@name_in_game_data")
+    if in_game is None:
+        # not looked up: empty name (refused, silently) or registered by the program
+        return And(len(ERR) == 0, Or(And(z3.Length(name) == 0, res is False or res == False), And(known, res is True or res == True)))  # noqa: E712
+    return And(z3.Length(name) > 0, Not(known), ops.eq(res, in_game), len(ERR) == ops.ite(in_game, 0, 1))
+
+
+CONTRACTS.append(Contract(
+    qualname=AN + "validate_signal_type_with_error", params={"self": _SELF, "signal_name": ty.Str, "node": ty.TObj("ASTNode", only=("MemDecl", "SignalLiteral")), "context": ty.Str},
+    requires=[("(reset capture)", _reset)],
+    ensures=[("an unknown, unregistered name is an error and False; a registered or game name is True without error; the empty name is False", _validate_post)],
+    uses={**_USES, "fn:is_valid_factorio_signal": is_valid_c}, dynamic_types={**_DYN, "self": {**_DYN["self"], "signal_type_map": ty.TDict(ty.Str, ty.Str)}},
+    properties=("C14", "C13"), min_obligations=3, no_replay=True))
+CONTRACTS.append(is_valid_c)
+
+WARN = []
+warning_c = Contract(qualname="dsl_compiler/src/common/diagnostics.py::ProgramDiagnostics.warning", params={"self": _OPQ, "message": _OPQ, "stage": _OPQ, "line": _OPQ, "column": _OPQ,
+                                                                                                             "source_file": _OPQ, "node": _OPQ},
+                     defaults={"stage": None, "line": 0, "column": 0, "source_file": None, "node": None}, effect=lambda ex, a: WARN.append(a), verify=False, note="a warning (does not stop compilation)")
+
+
+def _reserved_post(a, res):
+    return And(len(ERR) == ops.ite(a.signal_name == "signal-W", 1, 0), len(WARN) == 0)
+
+
+CONTRACTS.append(Contract(
+    qualname=AN + "_emit_reserved_signal_diagnostic", params={"self": _SELF, "signal_name": ty.Str, "node": ty.TObj("ASTNode", only=("MemDecl", "SignalLiteral")), "context": ty.Str},
+    requires=[("(reset capture)", lambda a: (WARN.clear(), _reset(a)) and True)],
+    ensures=[("signal-W is refused with an ERROR (not a warning); every other name passes silently", _reserved_post)],
+    uses={**_USES, "ProgramDiagnostics.warning": warning_c}, dynamic_types=_DYN, properties=("C14", "C13"), min_obligations=2, no_replay=True))
+CONTRACTS.append(warning_c)
+
+MEM = {}
+
+
+def _validate_eff(ex, a):
+    MEM.setdefault("validated", []).append(a.signal_name)
+    return ghost(ex.args_ns.node, "valid", ty.Bool)
+
+
+def _reserved_eff(ex, a):
+    MEM.setdefault("reserved_checked", []).append(a.signal_name)
+    return None
+
+
+def _memdecl_post(a, res):
+    node = a.node
+    scope = a.old.self.current_scope
+    scope = scope._obj if hasattr(scope, "_obj") else scope
+    t = node.signal_type
+    cs = []
+    if t is None:
+        cs.append(not MEM.get("validated") and not MEM.get("reserved_checked"))
+    else:
+        cs.append(len(MEM.get("validated", [])) == 1 and MEM["validated"][0] is t)
+        checked = MEM.get("reserved_checked", [])
+        cs.append(Implies(t == "signal-W", len(checked) == 1 and checked[0] is t) if len(checked) <= 1 else False)
+    if len(DEFS) != 1 or DEFS[0][0] is not scope:
+        return False
+    sym = DEFS[0][1]
+    redefined = node._fields.get("@redefined")
+    cs += [sym.name is node.name, sym.symbol_type == "memory", sym.is_mutable is True, len(ERR) == ops.ite(redefined, 1, 0)]
+    return And(*[x if not isinstance(x, bool) else z3.BoolVal(x) for x in cs])
+
+
+CONTRACTS.append(Contract(
+    qualname=AN + "visit_MemDecl", params={"self": _SELF, "node": ty.TObj("MemDecl", only=("MemDecl",), ftypes=(("name", ty.Str), ("signal_type", ty.TOpt(ty.Str))))},
+    requires=[("(reset capture)", lambda a: (MEM.clear(), _reset(a)) and True), ("the analyser has a current scope", lambda a: a.self.current_scope is not None)],
+    ensures=[("a declared cell type is validated and, when reserved, reported; the cell is defined in the current scope as a mutable memory; redefinition is an error", _memdecl_post)],
+    uses={**_USES, "SemanticAnalyzer.validate_signal_type_with_error": Contract(qualname=AN + "validate_signal_type_with_error",
+                                                                              params={"self": _OPQ, "signal_name": _OPQ, "node": _OPQ, "context": _OPQ}, defaults={"context": ""},
+                                                                              effect=_validate_eff, verify=False, note="proved above"),
+          "SemanticAnalyzer._emit_reserved_signal_diagnostic": Contract(qualname=AN + "_emit_reserved_signal_diagnostic", params={"self": _OPQ, "signal_name": _OPQ, "node": _OPQ, "context": _OPQ},
+                                                                        effect=_reserved_eff, verify=False, note="proved above"),
+          "SemanticAnalyzer.make_signal_type_info": Contract(qualname=AN + "make_signal_type_info", params={"self": _OPQ, "signal_type": _OPQ}, effect=_mk_info, verify=False,
+                                                             note="signal type record with this name")},
+    dynamic_types={**_DYN, "self": {**_DYN["self"], "memory_types": ty.TObjMap(ty.Str, ty.TObj("MemoryInfo", only=("MemoryInfo",)))}},
+    properties=("C14", "C13", "C03"), min_obligations=3, no_replay=True))
